@@ -65,7 +65,7 @@ class CircuitWorld(World):
     NAME = "circuit"
     LEVEL = "exploration"
     SIM_TIME_UNIT = "operations (public calls and generator advances)"
-    RUNS = {"quick": 2500, "thorough": 40000}
+    RUNS = {"quick": 8000, "thorough": 250000}
     WALL_CAP = {"quick": 1200, "thorough": 3300}
     SHRINK_BUDGET = 60
     RULE = (
